@@ -152,11 +152,13 @@ func (c *concurrentStreamMapperProvider[SRC, TGT]) Emit(ctx context.Context, _ P
 	case r, stillGood := <-c.tgtChan:
 		// Channel close is expected when the source stream is done (or when the context is done)
 		if !stillGood {
-			if c.eofCtx.Err() != nil {
-				return util.DefaultValue[TGT](), io.EOF
-			}
+			// Checking for cancellation first: when the context is cancelled after the source reached EOF,
+			// the workers drop their pending items, so the closed channel does not mean a proper end of stream
 			if ctx.Err() != nil {
 				return util.DefaultValue[TGT](), ctx.Err()
+			}
+			if c.eofCtx.Err() != nil {
+				return util.DefaultValue[TGT](), io.EOF
 			}
 			// Should never happen
 			return util.DefaultValue[TGT](), fmt.Errorf("concurrent stream channel closed prematurely")
